@@ -60,11 +60,14 @@ class Check:
         self.samples = []
         self.extra = {}
         self.nontrivial = set()
+        self.positive = set()   # idents of findings that are forbidden constructs present in the code
 
     # -- recording ------------------------------------------------------
     def ob(self, rule, construct, ok, detail="", key=None, file=None, function=None,
-           line=None, text=None, path=None, nontrivial=True):
-        """one obligation: discharged (ok) or a finding"""
+           line=None, text=None, path=None, nontrivial=True, positive=False):
+        """one obligation: discharged (ok) or a finding.  positive=True marks a finding that consists of a forbidden construct being
+        PRESENT at the reported place (not of an expected construct being absent or of a may-happen without a recognised excuse): such a
+        finding stands wherever it is, also in a function no rule instance was confirmed against (core/unconfirmed.py)"""
         self.instances[rule] = self.instances.get(rule, 0) + 1
         self.obligations.append((rule, construct, bool(ok), detail))
         if nontrivial:
@@ -73,6 +76,8 @@ class Check:
             k = key if key is not None else {"construct": construct}
             self.finding(rule, k, file=file, function=function, line=line,
                          text=text or construct, why=detail, path=path)
+            if positive:
+                self.positive.add((rule, canon_key(k)))
         return ok
 
     def finding(self, rule, key, file=None, function=None, line=None, text=None, why="", path=None):
